@@ -214,7 +214,8 @@ CHECKS = {
         "MRO, bases, metaclass, user attributes, where the name is bound and the results of a fixed "
         "call script against the class CPython builds; also after an earlier class statement of the same "
         "name in the same scope and as one alternative of an if/else. Quick: half of the size-<=1 sets + every 20th "
-        "size-2 set. Host dimension: a stride of the product and every member kind as whole programs.",
+        "size-2 set; thorough: all size-<=1 sets and every third size-2 set (the complete product takes well over an "
+        "hour). Host dimension: a stride of the product and every member kind as whole programs.",
         "Class-creation hooks that look at the namespace and class metadata are outside the property.",
         "DESIGN.md section 3, C12"),
     "C16": (
